@@ -237,6 +237,16 @@ class SetOrder:
                             return ("store", f"unordered list '{name}' stored into '{norm(t)}': its order is replayed later")
             elif isinstance(n, ast.Return) and n.value is not None and _value_is_name_passthrough(n.value, name):
                 return ("return", f"unordered list '{name}' returned to the caller")
+            elif isinstance(n, ast.Call):
+                fn = n.func
+                cname = fn.id if isinstance(fn, ast.Name) else (fn.attr if isinstance(fn, ast.Attribute) else "")
+                if cname in INSENSITIVE_FUNCS or cname in ("sorted", "min", "max", "list", "tuple", "iter", "enumerate", "reversed", "next",
+                                                            "update", "difference_update", "intersection_update", "issubset", "issuperset", "gather"):
+                    continue        # ordering / insensitive consumers are classified where they consume
+                if any(isinstance(a, ast.Name) and a.id == name for a in n.args) or \
+                        any(isinstance(k.value, ast.Name) and k.value.id == name for k in n.keywords):
+                    if cname[:1].isupper():
+                        return ("store", f"unordered sequence '{name}' handed to the constructor {cname}(): its order is kept in the object and replayed later")
         return None
 
 
